@@ -153,7 +153,9 @@ def alias_gate(fx):
         for idf in ids:
             for (cb, ct) in q.calls_to(f, idf):
                 rs = [R_.operand_role(f, a) for a in ct["args"]]
-                okr = p_role.SRC in rs and p_role.DST in rs
+                # (a wrapper type used for both sides has a MIXED field: only a *determinate* same-side pair is wrong)
+                det = [r_ for r_ in rs if r_ in (p_role.SRC, p_role.DST)]
+                okr = not (len(det) >= 2 and len(set(det)) == 1)
                 obs.append(Ob("R-ROLE", mkkey("R-ROLE", f.path, idf, k, "identity-args"), okr, q.loc_of(ct), f.path,
                               "identity test compares a %s value with a %s value" % tuple((rs + ["?", "?"])[:2]),
                               None if okr else dict(roles=rs)))
